@@ -35,7 +35,9 @@ CRONCONC_RULE = ("`gkh cronconc` (concurrent variant; monitors in the harness, r
                  "sequential orders, computed by running the same store sequentially on fresh identical worlds: MON C16), a "
                  "second Pop (the two must hand out what two sequential Pops hand out: MON C15), Schedule / Peek (every "
                  "registered entry has exactly one pending occurrence at any instant: MON C15), StopTimer (after both "
-                 "returned a stopped store's timer is neither armed nor pending: MON C17); ")
+                 "returned a stopped store's timer is neither armed nor pending: MON C17); and two EditTasks, the first parked "
+                 "INSIDE its own callback while the second runs (they must leave what one of the two orders leaves: an entry "
+                 "the other edit removed is not handed out again, an entry the other edit added is not dropped: MON C16); ")
 
 
 MEMCONC_RULE = ("`gkh memconc` (deterministic windows; monitors in the harness, relayed by the repo driver): two calls on one "
